@@ -539,6 +539,8 @@ class Respondent(httping.Parsent):
             raise ValueError("Invalid content length of {0}".format(self.length))
 
         del self.body[:]  # self.body.clear() clear body python2 bytearrays don't clear
+        self.parms = None  # clear chunk extension parms of previous msg when parser reused
+        self.trails = None  # clear chunk trailers of previous msg when parser reused
 
         if self.chunked:  # content-length is ignored if chunked
             self.parms = odict()
